@@ -436,6 +436,25 @@ func SolveAll(obls []*Obl, workDir string, timeoutMs int, all bool) {
 					return
 				}
 			}
+			if o.Kind == "deadprobe" {
+				// single fast solver on the full query: unsat = the path is dead
+				q := o.BuildQuery()
+				o.Query = q
+				f := filepath.Join(workDir, fmt.Sprintf("q%05d.smt2", i))
+				os.WriteFile(f, []byte(q), 0644)
+				procSlots <- struct{}{}
+				t0 := time.Now()
+				out, _ := exec.Command("z3-new", "-T:3", f).CombinedOutput()
+				<-procSlots
+				o.Ms = time.Since(t0).Milliseconds()
+				o.Backend = "z3-new"
+				if strings.HasPrefix(strings.TrimSpace(string(out)), "unsat") {
+					o.Status = "dead"
+				} else {
+					o.Status = "alive"
+				}
+				return
+			}
 			q := o.BuildSlicedQuery()
 			o.Query = q
 			f := filepath.Join(workDir, fmt.Sprintf("q%05d.smt2", i))
